@@ -99,6 +99,8 @@ type Desc struct {
 	// Ops: kind "multi": several interactive operations (each with its own commands before/after) on
 	// ONE channel; the caller passes the same pattern slice to every operation with Complete != "".
 	Ops []Desc `json:"ops,omitempty"`
+	// PromptPat: the session's prompt pattern when it is not the default one (options.WithPromptPattern).
+	PromptPat string `json:"prompt_pat,omitempty"`
 	// Plat: kind "platform": escalation through an embedded platform definition (see plat.go).
 	Plat *Plat `json:"plat,omitempty"`
 	// Wedge: the transport's Write of this input blocks past the operation timeout (see RunWedge).
@@ -298,6 +300,25 @@ func genCommon(r *rand.Rand, d *Desc) {
 	d.FinishAt = -1
 }
 
+// multiLineInput draws a multi-line input (a configuration block typed in one go) whose last line
+// also occurs inside an earlier line: the echo is complete only when that LAST occurrence was
+// echoed.
+func multiLineInput(r *rand.Rand) string {
+	last := []string{"}", "!", "end", "exit", "\"", "done"}[r.Intn(6)]
+	n := 2 + r.Intn(3)
+	ls := make([]string, n)
+	for i := range ls {
+		ls[i] = strings.Repeat(" ", r.Intn(3)*2) + "x" + randStr(r, bodyAlpha, 3+r.Intn(25))
+	}
+	k := r.Intn(n)
+	j := 1 + r.Intn(len(ls[k])-1)
+	ls[k] = ls[k][:j] + " {" + last + "} " + ls[k][j:]
+	if r.Intn(3) == 0 {
+		ls[r.Intn(n)] += " " + last
+	}
+	return strings.Join(ls, "\n") + "\n" + last
+}
+
 func genCmd(r *rand.Rand, term byte, prompt string) Cmd {
 	c := Cmd{Text: genInput(r, term), Out: genOut(r, 3)}
 	if strings.HasSuffix(prompt, " ") && r.Intn(2) == 0 {
@@ -322,6 +343,18 @@ func GenDialogue(r *rand.Rand, plain bool) Desc {
 // ahead of its echo: two prompts (initial prompt, prompt printed for a bare return) and the
 // device's whole reaction to the preceding line.
 func (d *Desc) echoesUnambiguous(before string) bool {
+	echoUnambiguous := echoUnambiguous
+	if d.Exact {
+		// exact mode looks for the input as a whole: it must not be contained in stale+p
+		echoUnambiguous = func(input, stale string) bool {
+			for p := 0; p < len(input); p++ {
+				if strings.Contains(stale+input[:p], input) {
+					return false
+				}
+			}
+			return true
+		}
+	}
 	base := d.Prompt + d.NL + d.Prompt
 	prev := before // what the preceding operation on the same channel left behind
 	cmdReaction := func(c Cmd) string {
@@ -558,6 +591,16 @@ func genDialogueOnce(r *rand.Rand, plain bool, base *Desc, op int) Desc {
 		}
 	} else if r.Intn(3) == 0 {
 		d.PSD = 2*longest + 16 + r.Intn(64)
+	}
+	if d.Exact && d.PSD == 1000 && base == nil {
+		// exact mode: some plain commands are multi-line inputs whose last line recurs earlier
+		for _, cs := range [][]Cmd{d.Warm, d.Post} {
+			for i := range cs {
+				if !cs[i].EchoStall && r.Intn(3) == 0 {
+					cs[i].Text = multiLineInput(r)
+				}
+			}
+		}
 	}
 	// echo-phase traffic: more than the search window (max(depth, 2*len(input))) delivered between
 	// the write of a visible, response-expecting event's input and the end of its echo -- as a burst
@@ -975,3 +1018,92 @@ func GenWedge(r *rand.Rand) Desc {
 	}
 	return d
 }
+
+// reactionsEndAtTheirEnd is the generator precondition on the device's reactions, by brute force
+// with the patterns the session uses: nothing before the question / prompt / completion text of a
+// reaction ends the read.
+func (d *Desc) reactionsEndAtTheirEnd(promptRe *regexp.Regexp) bool {
+	comp := []*regexp.Regexp{}
+	if d.Complete != "" {
+		comp = append(comp, regexp.MustCompile(d.CompRe))
+		if d.CompRe2 != "" {
+			comp = append(comp, regexp.MustCompile(d.CompRe2))
+		}
+	}
+	for k := 0; k < d.Sent(); k++ {
+		e := d.Events[k]
+		res := append([]*regexp.Regexp{}, comp...)
+		if e.Resp != "" {
+			res = append(res, regexp.MustCompile(e.Resp))
+		} else {
+			res = append(res, promptRe)
+		}
+		region := d.reaction(k)
+		tailLen := len(d.question(k))
+		if d.FinishAt == k {
+			tailLen = len(d.Prompt) + len(d.finishText(k))
+		}
+		p := firstMatch(region, res)
+		if p < 0 || p <= len(region)-tailLen || len(region)-p < e.Hold {
+			return false
+		}
+	}
+	return true
+}
+
+var looseLines = []string{"flash:/part1>", "sw1(boot)#", "stage-2$", "bootflash:/images>", "rommon-1>"}
+
+// GenShared draws two sessions that are sent the SAME event objects: one with the default prompt
+// pattern, one with a strict pattern of its own (options.WithPromptPattern) whose device prints
+// lines that the default pattern would take for prompts ahead of its real prompt.
+func GenShared(r *rand.Rand) Desc {
+	strictRe := regexp.MustCompile(strictPromptPattern)
+	for {
+		a := GenDialogue(r, false)
+		ok := a.Driver == "generic" && !a.Fresh && a.Complete != "prompt" && a.Sent() >= 2
+		waits := false
+		for k := 0; k < a.Sent()-1; k++ {
+			waits = waits || (a.Events[k].Resp == "" && a.FinishAt != k)
+		}
+		for _, e := range a.Events {
+			ok = ok && !e.LongOut && len(e.Burst) == 0 && !e.LongTail
+		}
+		if !ok || !waits {
+			continue
+		}
+		var post []Cmd
+		for _, c := range a.Post {
+			if !c.Eager && !c.EchoStall {
+				post = append(post, c)
+			}
+		}
+		a.Post = post
+		b := a
+		b.Events = append([]Ev(nil), a.Events...)
+		b.Host = "core2"
+		b.Prompt = "core2#"
+		if strings.HasSuffix(a.Prompt, " ") {
+			b.Prompt += " "
+		}
+		b.PromptPat = strictPromptPattern
+		for k := range b.Events {
+			e := &b.Events[k]
+			if e.Resp == "" && b.FinishAt != k {
+				i := r.Intn(len(e.Out) + 1)
+				e.Out = append(e.Out[:i:i], append([]string{looseLines[r.Intn(len(looseLines))]}, e.Out[i:]...)...)
+			}
+		}
+		if !b.reactionsEndAtTheirEnd(strictRe) || !b.echoesUnambiguous("") {
+			continue
+		}
+		d := a
+		d.Kind, d.Warm, d.Events, d.Post = "shared", nil, nil, nil
+		d.Ops = []Desc{a, b}
+		if r.Intn(3) == 0 {
+			d.Ops = []Desc{b, a}
+		}
+		return d
+	}
+}
+
+const strictPromptPattern = `(?m)^core2# ?$`
